@@ -78,7 +78,7 @@ Replies(a) ==
     [] a.op = "popx"  -> IF n = 0 THEN {R("empty", 0)} ELSE {R("item", 0)}
     [] a.op = "gate"  -> IF pst[a.p] = "pushsig" THEN {R("ok", 0)} ELSE {R("item", 0)}
     [] a.op = "recv"  -> IF sig = 1 THEN {R("true", 0)} ELSE {R("false", 0)}
-    [] a.op = "pushn" -> {R("ok", MinOf(a.k, wcap - n))}         \* v: how many were accepted
+    [] a.op = "pushn" -> {R("ok", IF wcap <= n THEN 0 ELSE MinOf(a.k, wcap - n))}         \* v: how many were accepted
     [] a.op = "popn"  -> {R("item", MinOf(a.k, n))}              \* v: how many items came out
     [] a.op = "gateall" -> {R("ok", Cardinality(AtGate(S)))}
     [] a.op = "len"   -> {R("len", n)}
@@ -116,7 +116,7 @@ Next == \E a \in Acts : \E r \in Replies(a) : Step(a, r)
 Spec == Init /\ [][Next]_allwvars
 
 TypeOK ==
-  /\ n \in 0..wcap /\ sig \in {0, 1}
+  /\ n >= 0 /\ (n > 0 => n <= wcap) /\ sig \in {0, 1}
   /\ \A p \in Procs : pst[p] \in {"idle", "pushsig", "popsig"} /\ tok[p] \in BOOLEAN
 
 Quiet == (\A p \in Procs : pst[p] = "idle") /\ (\A p \in Procs : ~tok[p])
